@@ -28,7 +28,7 @@ LEVEL_NOTE = "trusted: generator; Python predicates"
 
 
 def runs(tier, seed):
-    n = 30 if tier == "quick" else 600
+    n = 30 if tier == "quick" else 320
     k = 20000 if tier == "quick" else 300000
     return [Run("mempoolsim", cases=n, params={"class": "package", "mon": "package"}, timeout=3000 if tier == "quick" else 14000),
             Run("pkgpred", cases=k, timeout=1800)]
